@@ -15,6 +15,7 @@ class Schedule(object):
     def __init__(self, spec):
         self.spec = spec or {'policy': 'fifo'}
         self.taken = []
+        self.widths = []
         self.n = 0
         self.nonfifo = 0
         self.multi = 0
@@ -29,6 +30,7 @@ class Schedule(object):
         n = len(enabled)
         step = self.n
         self.n += 1
+        self.widths.append(n)
         if n == 1:
             self.taken.append(0)
             return 0
@@ -56,6 +58,16 @@ class Schedule(object):
             self.nonfifo += 1
         self.taken.append(idx)
         return idx
+
+
+def dfs_next(taken, widths):
+    """Next choice prefix in depth-first order, or None when exhausted."""
+    i = len(taken) - 1
+    while i >= 0:
+        if taken[i] + 1 < widths[i]:
+            return list(taken[:i]) + [taken[i] + 1]
+        i -= 1
+    return None
 
 
 def gen_schedule(D, max_devs=6, horizon=60):
@@ -213,6 +225,7 @@ def run_case(case, observe_each=False, full=False):
     res.errors = sim.W.errors
     res.swallowed = sim.W.swallowed
     res.sched_taken = sched.taken
+    res.sched_widths = sched.widths
     res.nonfifo = sched.nonfifo
     res.multi = sched.multi
     res.cas = sim.W.cas
